@@ -155,10 +155,26 @@ def parse (op okObs : List String) : Option Op :=
   | ["tick", dt, _blocks, _hc], [] => do pure (.tick (← nat? dt))
   | _, _ => none
 
+/-- FNV-1a (64 bit) over the UTF-8 bytes, as 16 lower-case hex digits — the harness computes the same. -/
+def fnv64 (s : String) : String :=
+  let h := s.toUTF8.foldl (fun (h : UInt64) b => (h ^^^ b.toUInt64) * 1099511628211) 14695981039346656037
+  let hex := (Nat.toDigits 16 h.toNat)
+  String.ofList (List.replicate (16 - hex.length) '0' ++ hex)
+
+/-- driver state: the model state and whether an answer has already failed to match its recorded hash -/
+structure DS where
+  s : State
+  stale : Bool
+
 def answer (st : String) (s : State) : State × String := (s, st ++ " # " ++ render s)
 
-def step (s : State) (ws : List String) : State × String :=
-  let (op, obs) := splitObs ws
+/-- split the trailing `h=<hash>` token off the observations -/
+def splitHash (obs : List String) : List String × Option String :=
+  match obs.reverse with
+  | last :: rest => if last.startsWith "h=" then (rest.reverse, some (last.drop 2).toString) else (obs, none)
+  | [] => (obs, none)
+
+def stepCore (s : State) (op obs : List String) : State × String :=
   match op with
   | ["init", _tag, _fork] => answer "ok" init
   | _ =>
@@ -204,14 +220,25 @@ def step (s : State) (ws : List String) : State × String :=
         | .error (.inadm w) => answer ("inadmissible " ++ w) s
     | st :: rest =>
       -- a failed or rejected call: no state change (the op must still be well-formed)
-      if st = "fail" ∨ st = "rejected" then
-        match op with
-        | [] => (s, "bad-op")
-        | _ => answer (" ".intercalate (st :: rest)) s
+      if st = "fail" ∨ st = "rejected" then answer (" ".intercalate (st :: rest)) s
       else (s, "bad-op")
     | [] => (s, "bad-op")
 
-def run : IO Unit := ZChain.Drv.runLoop step init
+/-- one line: the model's answer, or `stale` once an answer did not match the hash recorded with the line (see
+`impl` in harness/cmd/storage/main.go: the implementation side masks the same lines when ITS answer changed). -/
+def step (d : DS) (ws : List String) : DS × String :=
+  let (op, obs0) := splitObs ws
+  let (obs, h) := splitHash obs0
+  let fresh := match op with
+    | ["init", _, _] => true
+    | _ => !d.stale
+  let (s', out) := stepCore d.s op obs
+  let ok := match h with
+    | some hh => fnv64 out == hh
+    | none => true
+  if fresh && ok then (⟨s', false⟩, out) else (⟨s', true⟩, "stale")
+
+def run : IO Unit := ZChain.Drv.runLoop step ⟨init, false⟩
 
 end ZChain.Drv.STORAGE
 
